@@ -33,6 +33,8 @@ def field_selectors(names, tier):
             if k <= 2:
                 out.append('np.array(%r)' % (list(comb),))
     out.append(repr([0, nf]))
+    # negative entries, numpy integers in lists (an exception is acceptable for these, other data is not)
+    out += ['[-1]', '[%d, -1]' % -nf, 'np.array([-1])', 'np.array([%d, -1])' % -nf, '[np.int64(-1)]', '[np.int64(0), np.int64(%d)]' % (nf - 1), 'np.array([-1, 0])', '[%d]' % (-nf - 1)]
     out.append(repr(first[:1] + first[-1:]))
     if len(first) > 1:
         out.append(repr(first[::-1][:2]))
